@@ -5,6 +5,8 @@ package arvados
 import (
 	"crypto/md5"
 	"fmt"
+	"io"
+	"os"
 	"sort"
 	"strings"
 
@@ -203,6 +205,10 @@ func (r *collfsRun) checkLive(tag string) {
 // ---- C08: one worker, background flushes complete whenever the scheduler says --------
 
 func scenC08(w *vsim.World, spec *vsim.Spec) {
+	if spec.Tier == "thorough" && w.RunIndex()%1000 == 7 {
+		scenC08Production(w)
+		return
+	}
 	ns := mkNamespace(w.Choose("odd-names", 4) == 3, "")
 	r := setupCollfs(w, ns)
 	if r == nil {
@@ -317,3 +323,55 @@ func scenC09(w *vsim.World, spec *vsim.Spec) {
 	w.SetEndState(fmt.Sprintf("%d files %d dirs %d puts %d failed", len(mf), len(md), k.nput, k.nfailed))
 }
 
+
+// scenC08Production is the smoke run at the production block limit (64 MiB): writes that
+// straddle the block boundary, a read across it, a truncate just beyond it, then a save.
+func scenC08Production(w *vsim.World) {
+	const blk = 1 << 26
+	maxBlockSize = blk
+	readAllChunk = 1 << 22
+	defer func() { readAllChunk = 257 }()
+	concurrentWriters = 4
+	k := newSimKeep(w)
+	api := &simAPI{w: w}
+	fs, err := (&Collection{UUID: "zzzzz-4zz18-000000000000000"}).FileSystem(api, k)
+	if err != nil {
+		w.Infra("%v", err)
+		return
+	}
+	w.Probe("production-block-limit-run")
+	m := &mfs{root: newDir()}
+	r := &collfsRun{w: w, k: k, api: api, fs: fs, m: m, blk: blk}
+	delta := w.Choose("boundary-delta", 5) // first write ends delta-2 bytes from the boundary
+	done := false
+	w.Spawn("w", func() {
+		x := &executor{w: w, fs: fs, m: m, tag: "w", blk: blk}
+		x.apply(fsop{kind: opOpen, p1: "big", flags: os.O_CREATE | os.O_RDWR, slot: 0, idx: 0})
+		x.apply(fsop{kind: opWrite, slot: 0, n: blk - 2 + delta, idx: 1})
+		x.apply(fsop{kind: opWrite, slot: 0, n: 5, idx: 2})
+		x.apply(fsop{kind: opSeek, slot: 0, flags: io.SeekStart, off: blk - 3, idx: 3})
+		x.apply(fsop{kind: opRead, slot: 0, n: 7, idx: 4})
+		x.apply(fsop{kind: opTrunc, slot: 0, n: blk + 1, idx: 5})
+		x.apply(fsop{kind: opSeek, slot: 0, flags: io.SeekEnd, off: -2, idx: 6})
+		x.apply(fsop{kind: opRead, slot: 0, n: 4, idx: 7})
+		x.apply(fsop{kind: opSize, slot: 0, idx: 8})
+		if w.Failed() {
+			return
+		}
+		txt, err := fs.MarshalManifest(".")
+		if err != nil {
+			w.Violation("fs/marshal-failed", "production block limit: %v", err)
+			return
+		}
+		r.checkSave(txt, "production-block-limit save")
+		done = true
+	})
+	w.Run(nil)
+	if w.Failed() || w.Truncated() {
+		return
+	}
+	if !done {
+		w.Violation("fs/deadlock", "%s", strings.Join(w.Blocked(), "; "))
+	}
+	w.SetEndState("production-block-limit")
+}
